@@ -314,7 +314,8 @@ fn workload_inner(rng: &mut Rng, tier: Tier, volume: bool) -> Workload {
         risky_specials: risky,
         layout_variants: false,
     };
-    let expr = gen::expression(rng, &cfg);
+    // one workload in 150 is a report: 9-65 output files, one per value of a test
+    let expr = if !volume && rng.chance(1, 150) { gen::report_expression(rng) } else { gen::expression(rng, &cfg) };
     // syntax only a changed tree knows may or may not parse the way it is tried: set aside, not drift
     probe |= gen::uses_new_words(&expr);
     // one workload in 12 is wide: more scanner threads and files than any fixed-size pool of
